@@ -1008,6 +1008,14 @@ impl Context {
             Some(VariableExpression::EnumValueUntyped(_, _)) => {
                 panic!("Non-untyped enum value ended up in parent scope")
             }
+            // An enum value can not share the symbol slot with a set of function overloads
+            Some(VariableExpression::Function(_)) => {
+                return Err(TyperError::ValueAlreadyDefined(
+                    name.clone(),
+                    ErrorType::Unknown,
+                    ErrorType::Unknown,
+                ));
+            }
             _ => {}
         };
 
